@@ -324,7 +324,9 @@ C04_NotifiedIsActual ==
      /\ cb # <<>> => /\ cb[Len(cb)] = cur[a].conn /\ cb[1] # pre[a].conn
                      /\ \A k \in 1..(Len(cb) - 1) : cb[k] # cb[k + 1]
 C04_SelWhileConnected == \A a \in Agents : cur[a].conn \in {"Connected", "Disconnected"} => cur[a].sel # 0
-C04_ReleasedOnFailed == \A a \in Agents : (cur[a].conn = "Failed" /\ pre[a].conn # "Failed") => Empty(cur, a)
+\* ... and the application is told Failed only then: its handler never finds a selected pair through the lock-free accessor
+C04_ReleasedOnFailed == \A a \in Agents : /\ (cur[a].conn = "Failed" /\ pre[a].conn # "Failed") => Empty(cur, a)
+                                           /\ ~cur[a].failedSawSel
 \* ---------------------------------------------------------------- C20 (controlled side)
 NomReq == IsDeliver /\ ev.m.kind = "req" /\ ReqAuthOK /\ SocketOpen /\ ev.m.rolea # pre[Rcv].role /\ pre[Rcv].role = "controlled"
 C20_AcceptMonotone == \A a \in Agents :
